@@ -180,6 +180,9 @@ def post_c08(ctx, parsed, rows, res):
                         f"MISSED_DEADLINE row", {})
     # ---------------------------------------------------------------- scheduler rows
     inv = list(ctx.invocations)
+    pol_ = ctx.world["policy"]
+    offer_is_deterministic = (not any(n.get("conditional") for g in ctx.world["graphs"] for n in g["nodes"])) or \
+        (pol_["name"] == "ILP" and pol_.get("branch_policy", "worst") != "random")  # only ILP takes a policy
     starts = [r for r in sched_rows if r[1] == "SCHEDULER_START"]
     fins = [r for r in sched_rows if r[1] == "SCHEDULER_FINISHED"]
     for i, r in enumerate(fins):
@@ -204,10 +207,14 @@ def post_c08(ctx, parsed, rows, res):
         if int(r[0]) != rec["t"]:
             ctx.violate("C08", "scheduler_row_time", f"SCHEDULER_START row at {r[0]}, policy invoked at "
                         f"{rec['t']}", {})
-        if rec.get("sim_offer") is not None and int(r[2]) != rec["sim_offer"]:
+        # the number of tasks offered: what the policy itself obtained from the frontier inside this invocation
+        # (same state, same options).  Only comparable when the offer is a function of the state: a RANDOM branch
+        # prediction draws afresh for every query of a graph with an unresolved conditional.
+        if rec.get("offered") is not None and rec["policy"] not in ("Chaos", "WC") and offer_is_deterministic \
+                and int(r[2]) != rec["offered"]:
             ctx.violate("C08", "scheduler_row_offered",
-                        f"SCHEDULER_START at {r[0]}: offered field {r[2]}, the frontier held "
-                        f"{rec['sim_offer']} tasks", {})
+                        f"SCHEDULER_START at {r[0]}: offered field {r[2]}, the policy was offered "
+                        f"{rec['offered']} tasks", {"row_smaller": int(r[2]) < rec["offered"]})
     # ---------------------------------------------------------------- the project's reader
     reader_check(ctx, parsed, graphs, fin_graphs)
 
